@@ -435,10 +435,10 @@ theorem child_loop (hν : Function.Injective ν) (hφ : Function.Injective φ) (
           exact ⟨t3, h3, by rw [a2, e3], w2⟩
 
 /-- body of the "abort all activated child flows" loop of the deactivation block -/
-def deactStep (rec : FUid → M Unit) (fid : String) (c : String) (_ : PUnit) : M (ForInStep PUnit) :=
+def deactStep (tail : String) (rec : FUid → M Unit) (fid : String) (c : String) (_ : PUnit) : M (ForInStep PUnit) :=
   EStateM.bind (getInstX? c) fun r =>
     match r with
-    | none => EStateM.bind (pyRaise "KeyError" (toString c ++ toString " (model line 177)")) fun (_ : PUnit) => EStateM.pure (ForInStep.yield PUnit.unit)
+    | none => EStateM.bind (pyRaise "KeyError" (toString c ++ toString tail)) fun (_ : PUnit) => EStateM.pure (ForInStep.yield PUnit.unit)
     | some cx =>
       if cx.flowId = fid then
         EStateM.bind (rec c) fun _ =>
@@ -446,8 +446,8 @@ def deactStep (rec : FUid → M Unit) (fid : String) (c : String) (_ : PUnit) : 
       else EStateM.pure (ForInStep.yield PUnit.unit)
 
 theorem deact_loop (hν : Function.Injective ν) (hφ : Function.Injective φ) (rec : FUid → M Unit) (rec0 : State → Nat → Except Err State)
-    (hrec : RefRec ν φ rec rec0) (hcs : CsRec rec0) (fid : String) : ∀ (l : List String) (vm vm' : VM), WF vm →
-    forIn l PUnit.unit (deactStep rec fid) vm = .ok PUnit.unit vm' →
+    (hrec : RefRec ν φ rec rec0) (hcs : CsRec rec0) (tail fid : String) : ∀ (l : List String) (vm vm' : VM), WF vm →
+    forIn l PUnit.unit (deactStep tail rec fid) vm = .ok PUnit.unit vm' →
     ∃ t, deactLoop rec0 (φ fid) (absVM ν φ vm) (l.map ν) = .ok t ∧ absVM ν φ vm' = cs t ∧ WF vm'
   | [], vm, vm', hw, h => by
     rw [List.forIn_nil] at h
@@ -490,14 +490,14 @@ theorem deact_loop (hν : Function.Injective ν) (hφ : Function.Injective φ) (
           have a2 : absVM ν φ (vmMod vm1 c fun y => { y with activated := 0 }) = cs (modFlow t1 (ν c) fun f => { f with activated := 0 }) := by
             rw [absVM_vmMod ν φ hν vm1 c (fun y => { y with activated := 0 }) (fun fl => { fl with activated := 0 }) (fun _ _ => rfl),
               cs_modFlow, a1]
-          obtain ⟨t2, h2, a3, w3⟩ := deact_loop hν hφ rec rec0 hrec hcs fid l _ vm' w2 h
+          obtain ⟨t2, h2, a3, w3⟩ := deact_loop hν hφ rec rec0 hrec hcs tail fid l _ vm' w2 h
           have hcl := cs_deactLoop rec0 hcs (φ fid) (l.map ν) (modFlow t1 (ν c) fun f => { f with activated := 0 })
             (cs (modFlow t1 (ν c) fun f => { f with activated := 0 })) rfl
           rw [← a2, h2] at hcl
           obtain ⟨t3, h3, e3⟩ := csE_ok_inv hcl
           exact ⟨t3, h3, by rw [a3, e3], w3⟩
       · simp only [e, decide_false, Bool.false_eq_true, if_false, EStateM.pure] at h ⊢
-        exact deact_loop hν hφ rec rec0 hrec hcs fid l vm vm' hw h
+        exact deact_loop hν hφ rec rec0 hrec hcs tail fid l vm vm' hw h
 
 theorem getInst_run_some (f : FUid) (vm : VM) (i : Inst) (h : findInst vm.ixs.ix f = some i) : getInst f vm = .ok i vm := by
   unfold getInst getInst?
@@ -696,7 +696,7 @@ theorem corevm_abort_is_op (hν : Function.Injective ν) (hφ : Function.Injecti
         by_cases h0 : x.activated - 1 = 0
         · simp only [h0, decide_true, if_true] at h ⊢
           obtain ⟨B, hB, hrun⟩ : ∃ B : String → PUnit → M (ForInStep PUnit),
-              (∀ c u s, B c u s = deactStep (fun c => CoreVM.abortFlow n c sc true) x.flowId c u s) ∧
+              (∀ c u s, B c u s = deactStep " (model line 177)" (fun c => CoreVM.abortFlow n c sc true) x.flowId c u s) ∧
               (EStateM.bind (forIn x.childFlowUids PUnit.unit B) fun _ => vmAbortBody (fun c => CoreVM.abortFlow n c sc true) f sc true)
                 (vmMod vm f fun y => { y with activated := y.activated - 1 }) = EStateM.Result.ok () vm' := by
             refine ⟨_, ?_, h⟩
@@ -704,18 +704,18 @@ theorem corevm_abort_is_op (hν : Function.Injective ν) (hφ : Function.Injecti
             simp only [deactStep, EStateM.bind]
             rw [getInstX?_run]
             cases OMap.lookup c s.r.fx <;> rfl
-          have hBeq : B = deactStep (fun c => CoreVM.abortFlow n c sc true) x.flowId := by
+          have hBeq : B = deactStep " (model line 177)" (fun c => CoreVM.abortFlow n c sc true) x.flowId := by
             funext c u s; exact hB c u s
           rw [hBeq] at hrun
           simp only [EStateM.bind] at hrun
-          cases hloop : forIn x.childFlowUids PUnit.unit (deactStep (fun c => CoreVM.abortFlow n c sc true) x.flowId)
+          cases hloop : forIn x.childFlowUids PUnit.unit (deactStep " (model line 177)" (fun c => CoreVM.abortFlow n c sc true) x.flowId)
               (vmMod vm f fun y => { y with activated := y.activated - 1 }) with
           | error e s => rw [hloop] at hrun; cases hrun
           | ok u2 vm2 =>
             have h' := hrun
             rw [hloop] at h'
             simp only at h'
-            obtain ⟨t2, h2, a2, w2⟩ := deact_loop ν φ hν hφ _ _ hrec hcs x.flowId x.childFlowUids _ vm2 w1 hloop
+            obtain ⟨t2, h2, a2, w2⟩ := deact_loop ν φ hν hφ _ _ hrec hcs _ x.flowId x.childFlowUids _ vm2 w1 hloop
             obtain ⟨t3, h3, a3, w3⟩ := body_refines ν φ hν hφ _ _ hrec hcs f sc true vm2 vm' w2 h'
             have hfid : (absFlow ν φ vm f x).flowId = φ x.flowId := rfl
             have hch : (absFlow ν φ vm f x).children = x.childFlowUids.map ν := rfl
@@ -742,6 +742,119 @@ theorem corevm_abort_is_op (hν : Function.Injective ν) (hφ : Function.Injecti
         simp only
         exact body_refines ν φ hν hφ _ _ hrec hcs f sc d vm vm' hw h
     · rw [he] at h; cases h
+
+/-- **the deactivation block**, generic in the continuation `k` (shared by `_abort_flow` and `_finish_flow`):
+    either only the reference count was decremented and the function returned, or the block refines
+    `deactivatePhase … = (·, false)` and the run continues with `k` -/
+theorem deact_refines (hν : Function.Injective ν) (hφ : Function.Injective φ) (tail : String) (rec : FUid → M Unit)
+    (rec0 : State → Nat → Except Err State) (hrec : RefRec ν φ rec rec0) (hcs : CsRec rec0) (f : FUid) (d : Bool) (k : M Unit)
+    (vm vm' : VM) (hw : WF vm) (h : vmDeact tail rec f d k vm = .ok () vm') :
+    (∃ t1, deactivatePhase rec0 (absVM ν φ vm) (ν f) d = .ok (t1, true) ∧ absVM ν φ vm' = cs t1 ∧ WF vm') ∨
+    (∃ vmK tK, deactivatePhase rec0 (absVM ν φ vm) (ν f) d = .ok (tK, false) ∧ absVM ν φ vmK = cs tK ∧ WF vmK ∧ k vmK = .ok () vm') := by
+  unfold vmDeact at h
+  simp only [bind, EStateM.bind, pure] at h
+  cases hx : OMap.lookup f vm.r.fx with
+  | none =>
+    have : isReferenceActivated f vm = .error (.py "KeyError" f) vm := by
+      unfold isReferenceActivated
+      simp only [bind, EStateM.bind, getInstX_run_none f vm hx]
+    rw [this] at h; cases h
+  | some x =>
+  have hfl : (absVM ν φ vm).flows (ν f) = some (absFlow ν φ vm f x) := by rw [absVM_flows ν φ hν, hx]; rfl
+  unfold deactivatePhase
+  rw [hfl]
+  simp only
+  rcases isReferenceActivated_refines ν φ hν hφ f vm x hx with ⟨b, hb1, hb2⟩ | ⟨msg, he, _⟩
+  · rw [hb1] at h
+    simp only at h
+    by_cases hdb : (d && b) = true
+    · simp only [Bool.and_eq_true] at hdb
+      obtain ⟨hd, hbt⟩ := hdb
+      subst hd; subst hbt
+      simp only [Bool.and_self, if_true, hb2] at h ⊢
+      simp only [EStateM.bind, modInstX_run] at h
+      have hpos : 0 < x.activated := by
+        unfold isRefActivated at hb2
+        split at hb2
+        · next hp => simp only [absFlow] at hp; omega
+        · cases hb2
+      have hx1 : OMap.lookup f (vmMod vm f fun y => { y with activated := y.activated - 1 }).r.fx = some { x with activated := x.activated - 1 } := by
+        have hl := lookup_modify f f (fun y : InstX => { y with activated := y.activated - 1 }) vm.r.fx
+        simp only [if_true] at hl
+        show OMap.lookup f (OMap.modify f _ vm.r.fx) = _
+        rw [hl, hx]; rfl
+      rw [getInstX_run_some f _ _ hx1] at h
+      simp only at h
+      have w1 : WF (vmMod vm f fun y => { y with activated := y.activated - 1 }) := by
+        refine ⟨hw.a, ?_, hw.g, ?_⟩
+        · unfold WFI
+          show vm.ixs.ix.insts.map (·.uid) = (OMap.modify f _ vm.r.fx).map (·.1) ∧ _
+          rw [keys_modify']; exact hw.i
+        · intro k' x' hx'
+          have hl := lookup_modify f k' (fun y : InstX => { y with activated := y.activated - 1 }) vm.r.fx
+          have hx'' : OMap.lookup k' (OMap.modify f (fun y : InstX => { y with activated := y.activated - 1 }) vm.r.fx) = some x' := hx'
+          rw [hl] at hx''
+          by_cases hk : k' = f
+          · simp only [hk, if_true, hx, Option.map_some, Option.some.injEq] at hx''
+            rw [← hx'']; show 0 ≤ x.activated - 1; omega
+          · simp only [hk, if_false] at hx''
+            exact hw.n k' x' hx''
+      have a1 : absVM ν φ (vmMod vm f fun y => { y with activated := y.activated - 1 }) =
+          setFlow (absVM ν φ vm) (ν f) { (absFlow ν φ vm f x) with activated := (absFlow ν φ vm f x).activated - 1 } := by
+        rw [absVM_vmMod ν φ hν vm f (fun y => { y with activated := y.activated - 1 }) (fun fl => { fl with activated := fl.activated - 1 })
+          (fun u y => by simp only [absFlow]; congr 1; omega), modFlow_some _ _ _ _ hfl]
+      have hz : ((absFlow ν φ vm f x).activated - 1 == 0) = decide (x.activated - 1 = 0) := by
+        simp only [absFlow]
+        by_cases h0 : x.activated - 1 = 0
+        · have : x.activated.toNat - 1 = 0 := by omega
+          simp [h0, this]
+        · have : ¬ x.activated.toNat - 1 = 0 := by omega
+          simp [h0, this]
+      rw [hz]
+      by_cases h0 : x.activated - 1 = 0
+      · simp only [h0, decide_true, if_true] at h ⊢
+        obtain ⟨B, hB, hrun⟩ : ∃ B : String → PUnit → M (ForInStep PUnit),
+            (∀ c u s, B c u s = deactStep tail rec x.flowId c u s) ∧
+            (EStateM.bind (forIn x.childFlowUids PUnit.unit B) fun _ => k)
+              (vmMod vm f fun y => { y with activated := y.activated - 1 }) = EStateM.Result.ok () vm' := by
+          refine ⟨_, ?_, h⟩
+          intro c u s
+          simp only [deactStep, EStateM.bind]
+          rw [getInstX?_run]
+          cases OMap.lookup c s.r.fx <;> rfl
+        have hBeq : B = deactStep tail rec x.flowId := by
+          funext c u s; exact hB c u s
+        rw [hBeq] at hrun
+        simp only [EStateM.bind] at hrun
+        cases hloop : forIn x.childFlowUids PUnit.unit (deactStep tail rec x.flowId)
+            (vmMod vm f fun y => { y with activated := y.activated - 1 }) with
+        | error e s => rw [hloop] at hrun; cases hrun
+        | ok u2 vm2 =>
+          rw [hloop] at hrun
+          simp only at hrun
+          obtain ⟨t2, h2, a2, w2⟩ := deact_loop ν φ hν hφ rec rec0 hrec hcs tail x.flowId x.childFlowUids _ vm2 w1 hloop
+          right
+          have hfid : (absFlow ν φ vm f x).flowId = φ x.flowId := rfl
+          have hch : (absFlow ν φ vm f x).children = x.childFlowUids.map ν := rfl
+          rw [← a1, hfid, hch, h2]
+          exact ⟨vm2, t2, rfl, a2, w2, hrun⟩
+      · simp only [h0, decide_false, Bool.false_eq_true, if_false, EStateM.pure] at h ⊢
+        cases h
+        left
+        exact ⟨_, rfl, by rw [a1]; rfl, w1⟩
+    · simp only [hdb, Bool.false_eq_true, if_false] at h
+      have hq : (if d = true then isRefActivated (absVM ν φ vm) (absFlow ν φ vm f x) else Except.ok false) = .ok false := by
+        cases d with
+        | false => rfl
+        | true =>
+          simp only [if_true, hb2]
+          cases b with
+          | false => rfl
+          | true => simp at hdb
+      rw [hq]
+      right
+      exact ⟨vm, absVM ν φ vm, rfl, rfl, hw, h⟩
+  · rw [he] at h; cases h
 
 /-! ### transfer of the hierarchy part of the lifetime invariant to `CoreVM.abortFlow` -/
 
